@@ -516,9 +516,11 @@ sexp sexp_sweep (sexp ctx, size_t *sum_freed_ptr) {
             freed = q->size + size + r->size;
 #ifdef CHIBI_VERIF
             VERIF_POISON(p, VERIF_FLHDR);
-            VERIF_POISON(r, VERIF_FLHDR);
 #endif
             p = (sexp) (((char*)p) + size + r->size);
+#ifdef CHIBI_VERIF
+            VERIF_POISON(r, VERIF_FLHDR);
+#endif
           } else {
             freed = q->size + size;
 #ifdef CHIBI_VERIF
